@@ -5,6 +5,8 @@ Import ListNotations.
 Require Import LV.Base.CField LV.Base.QcI.
 Require Import LV.SelfCal.TrlModel LV.SelfCal.TrlProofs LV.SelfCal.TrlQI.
 Require Import LV.SelfCal.AutoLoop LV.SelfCal.AutoProofs LV.SelfCal.AutoReplay LV.SelfCal.NullGuards.
+Require Import Permutation.
+Require Import LV.SelfCal.DispatchModel LV.SelfCal.DispatchProofs.
 Local Open Scope cf_scope.
 
 (* ---- TRL: the true values are roots of the equations the code forms from the data ---- *)
@@ -183,3 +185,46 @@ Print Assumptions update_s_safe_thm.
 Theorem update_s_safe_refuted_thm : exists stds, update_s_matrices true stds = NullDeref.
 Proof. exact update_s_safe_refuted. Qed.
 Print Assumptions update_s_safe_refuted_thm.
+
+(* ---- which solver is used: the analytic TRL path only for exact TRL shapes ---- *)
+Theorem trl_path_only_for_exact_shapes_thm : forall ty rows cols stds unknowns correlated m_error,
+  dispatch ty rows cols stds unknowns correlated m_error = PathTrl ->
+  rows = 2%nat /\ cols = 2%nat /\ eight_term ty = true /\ unknowns = 2%nat /\ correlated = 0%nat /\
+  m_error = false /\ exists a b, Permutation stds [std_T; std_R a; std_L b].
+Proof. exact trl_path_only_for_exact_shapes. Qed.
+Print Assumptions trl_path_only_for_exact_shapes_thm.
+
+Theorem exact_shapes_take_trl_path_thm : forall ty a b, eight_term ty = true ->
+  dispatch ty 2 2 [std_T; std_R a; std_L b] 2 0 false = PathTrl /\
+  dispatch ty 2 2 [std_L b; std_T; std_R a] 2 0 false = PathTrl /\
+  dispatch ty 2 2 [std_R a; std_L b; std_T] 2 0 false = PathTrl.
+Proof. exact exact_shapes_take_trl_path. Qed.
+Print Assumptions exact_shapes_take_trl_path_thm.
+
+Theorem not_trl_examples_thm :
+  dispatch T8 2 2 [std_T; std_R 0; (Known 5, Unknown 1, Unknown 1, Known 5)] 2 0 false = PathAuto /\
+  dispatch U8 2 2 [std_T; (Unknown 0, Zero, Zero, Unknown 2); std_L 1] 3 0 false = PathAuto /\
+  dispatch TE10 2 2 [(Zero, One, Known 7, Zero); std_R 0; std_L 1] 2 0 false = PathAuto /\
+  dispatch UE10 2 2 [std_T; (Corr 0, Zero, Zero, Corr 0); std_L 1] 2 1 false = PathAuto /\
+  dispatch T8 2 2 [std_T; std_R 0; std_L 1] 2 0 true = PathAuto /\
+  dispatch T16 2 2 [std_T; std_R 0; std_L 1] 2 0 false = PathAuto /\
+  dispatch T8 2 2 [std_T; std_R 0; std_L 1; (Zero, Zero, Zero, Zero)] 2 0 false = PathAuto.
+Proof. exact not_trl_examples. Qed.
+Print Assumptions not_trl_examples_thm.
+
+(* ---- write-back: after a solve the parameter's value at every calibration frequency of that
+        solve is the solved value, whatever the parameter object held before ---- *)
+Theorem writeback_exact_thm : forall (F V : Type) (F_eqb : F -> F -> bool),
+  (forall a b, F_eqb a b = true <-> a = b) ->
+  forall (old : pobj F V) (fs : list F) (vs : list V) (i : nat) (df : F) (dv : V),
+  NoDup fs -> length fs = length vs -> (i < length fs)%nat ->
+  get F V F_eqb (writeback F V true old fs vs) (nth i fs df) = Some (nth i vs dv).
+Proof. exact writeback_exact. Qed.
+Print Assumptions writeback_exact_thm.
+
+(* the form that copies the calibration grid only when the number of points changed *)
+Theorem writeback_stale_grid_refuted_thm :
+  exists old fs vs, NoDup fs /\ length fs = length vs /\
+    get nat nat Nat.eqb (writeback nat nat false old fs vs) (nth 0 fs 0%nat) <> Some (nth 0 vs 0%nat).
+Proof. exact writeback_stale_grid_refuted. Qed.
+Print Assumptions writeback_stale_grid_refuted_thm.
